@@ -31,10 +31,11 @@ struct Ep
     uint8_t str;
     char name;
 };
-// A/B differ only in the stream id, A/C only in the low byte of the device id, A/D only in its HIGH byte
-// (a key that drops or folds any part of the endpoint makes two of them collide)
+// A/B differ only in the stream id, A/D only in the HIGH byte of the device id (a key that drops or folds a part of the endpoint
+// makes two of them collide); C is (0,0): the ids a default-constructed Packet or Encoder carries, i.e. the value any "not set
+// yet" shortcut compares with
 constexpr int NEP = 4;
-static const Ep kEp[NEP] = {{1, 1, 'A'}, {1, 0x81, 'B'}, {2, 1, 'C'}, {0x0101, 1, 'D'}};   // B's stream id has the sign bit of a byte set
+static const Ep kEp[NEP] = {{1, 1, 'A'}, {1, 0x81, 'B'}, {0, 0, 'C'}, {0x0101, 1, 'D'}};   // B's stream id has the sign bit of a byte set
 
 static Bytes pattern(size_t len, unsigned tag)
 {
@@ -234,7 +235,7 @@ struct Var
 // variants 8 and 9 reassemble to 65535 / 65519..65520 bytes (the largest messages the 16-bit length field admits)
 static const Var kVar[10] = {
     {{5, 5, 5}, 1, 0, 1, false},     {{1, 0, 5}, 65534, 3, 1, false}, {{0, 5, 1}, 65535, 20, 2, false}, {{6, 1, 0}, 0, 0, 1, true},
-    {{5, 5, 5}, 65535, 3, 1, true},  {{0, 0, 0}, 32766, 0, 2, false}, {{1, 1, 1}, 32767, 20, 1, false}, {{6, 0, 1}, 254, 0, 2, true},
+    {{5, 5, 5}, 65535, 3, 1, true},  {{0, 0, 0}, 32766, 0, 2, false}, {{1, 1, 1}, 32767, 300, 1, false}, {{6, 0, 1}, 254, 0, 2, true},
     {{40000, 25535, 0}, 65534, 0, 1, false}, {{65519, 0, 1}, 1, 3, 1, true},
 };
 
@@ -321,8 +322,10 @@ static BuiltStream buildStream(int ep, int tmpl, int var)
             const uint8_t segFlags = q == 0 ? firstFlags : (uint8_t) ((firstFlags ^ ((q & 1) ? 0x31 : 0x13)) & 0x33);
             ref::Msg m = ref::mkMsg(ptype, body, (uint8_t) (segFlags | (seg << 2)), ts + q, q == 0 ? id : id ^ (0x01010101u * (uint32_t) q));
             Bytes f = ref::buildFrame(fh(seq++), {m});
+            // bytes after the declared segment length; a long trail is filled with 0x01, which at EVERY offset reads as a plausible
+            // message header (flags 0x01, payload type 1, length 257 that fits): a decoder that parses on behind a segment finds one
             for (int z = 0; z < v.trail; ++z)
-                f.push_back((uint8_t) (0xE0 + z));   // bytes after the declared segment length
+                f.push_back(v.trail >= 100 ? (uint8_t) 0x01 : (uint8_t) (0xE0 + z));
             bs.frames.push_back(f);
             std::vector<ref::Delivered> exp;
             if (q + 1 == k)
@@ -512,13 +515,13 @@ static void runMergeTask(W& w, const MergeTask& t, char oracle)
 
 // ---------------------------------------------------------------------------------------------
 // C17 alphabet (state-relative)
-constexpr int SYM_PER_EP = 23;
+constexpr int SYM_PER_EP = 24;
 // endpoint D takes part with a reduced symbol set {U, F, I, L, payload-type 0}
 constexpr int ND = 5;
 static const int kDKinds[ND] = {0, 2, 5, 6, 12};
 constexpr int EPLESS = 3 * SYM_PER_EP + ND;   // first endpoint-less symbol
 constexpr int NSYM = EPLESS + 3;
-static const char* kSymName[SYM_PER_EP] = {"U", "UU", "F", "Ft", "F2", "I", "L", "Ib", "Lb", "Lv", "Lt", "It", "Z", "E", "O", "H", "UF", "P", "UI", "UL", "P1", "T0", "L0"};
+static const char* kSymName[SYM_PER_EP] = {"U", "UU", "F", "Ft", "F2", "I", "L", "Ib", "Lb", "Lv", "Lt", "It", "Z", "E", "O", "H", "UF", "P", "UI", "UL", "P1", "T0", "L0", "Z0"};
 
 static std::string symName(int sym)
 {
@@ -637,11 +640,27 @@ static Bytes symbolFrame(int sym, const ref::ReassemblyModel& m, bool& isNull, i
             // frame header plus ONE byte: the shortest remainder that is not a message (aborts like any invalid message)
             fh.seq = next;
             Bytes f = ref::buildFrame(fh, {});
-            f.push_back(0x01);
+            f.push_back(0x00);   // a zero byte, as padding would be
+            return f;
+        }
+        // frame header followed by 16 zero bytes: looks like padding, parses as a message of payload type 0, i.e. an invalid message,
+        // which aborts the endpoint's open message like any other
+        case 23:
+        {
+            fh.seq = next;
+            Bytes f = ref::buildFrame(fh, {});
+            f.resize(f.size() + 16, 0);
             return f;
         }
         // a LAST segment without payload bytes (completes the message all the same)
-        case 22: fh.seq = next; fh.version = over; fh.msgType = otyp; return ref::buildFrame(fh, {seg(ref::SEG_LAST, 0, 24)});
+        case 22:
+        {
+            // ... followed by 300 bytes that read as a plausible message header at every offset (see buildStream)
+            fh.seq = next; fh.version = over; fh.msgType = otyp;
+            Bytes f = ref::buildFrame(fh, {seg(ref::SEG_LAST, 0, 24)});
+            f.resize(f.size() + 300, 0x01);
+            return f;
+        }
         case 18: fh.seq = next; fh.version = over; fh.msgType = otyp; return ref::buildFrame(fh, {seg(0, 2, 20), seg(ref::SEG_MID, 3, 21)});
         case 19: fh.seq = next; fh.version = over; fh.msgType = otyp; return ref::buildFrame(fh, {seg(0, 2, 22), seg(ref::SEG_LAST, 2, 23)});
         default:
@@ -844,6 +863,79 @@ static void runBfs(mc::Run& run, int maxDepth, char oracle)
     munmap(sh, sz);
 }
 
+// Fan-out: MANY endpoints with a message in progress at the same time (a table that is rehashed, capped or swept at some size
+// shows only then). N endpoints each send a first segment, then the last segments arrive in one of three orders; every message must
+// be delivered once with its own bytes (M), exactly as a decoder that only sees that endpoint delivers it (S), and the pending
+// table must hold exactly the endpoints still open after every frame (P).
+static void fanOut(W& w, char oracle, int n, int order)
+{
+    Sys s;
+    std::vector<Decoder> solo(oracle == 'S' ? (size_t) n : 0);
+    auto epOf = [](int i, uint16_t& dev, uint8_t& str) {
+        dev = (uint16_t) (1 + (i >> 2) + ((i & 0x40) ? 0x0100 : 0));
+        str = (uint8_t) ((i & 3) * 0x41);
+    };
+    auto frame = [&](int i, bool last) {
+        ref::FrameHdr fh;
+        epOf(i, fh.device, fh.stream);
+        fh.version = 1; fh.msgType = ref::MT_DATA;
+        uint16_t start = (i & 1) ? 65535 : 10;
+        fh.seq = (uint16_t) (start + (last ? 1 : 0));
+        Bytes body = pattern(last ? 2 : 3, (unsigned) (i * 2 + (last ? 1 : 0)));
+        return ref::buildFrame(fh, {ref::mkMsg(0xFE, body, (uint8_t) ((last ? ref::SEG_LAST : ref::SEG_FIRST) << 2), 0x4000 + i, 0x7000 + i)});
+    };
+    auto feed = [&](int i, bool last, int pos) {
+        Bytes f = frame(i, last);
+        std::string where = fmt("frame %d (%s segment of endpoint #%d of %d)", pos, last ? "last" : "first", i, n);
+        auto got = step(w, s, f, false, -1, oracle == 'S' ? 'n' : oracle, where);
+        if (oracle == 'S')
+        {
+            auto sg = decodeCopy(w, solo[i], f, false);
+            if (sg.size() != got.size())
+                w.fail("isolation:delivery-count-differs-from-solo-decoder",
+                       where + fmt(": shared decoder returned %zu packet(s), a decoder fed only this endpoint's frames returned %zu", got.size(), sg.size()));
+            else
+                for (size_t k = 0; k < got.size(); ++k)
+                {
+                    std::string d = diffObs(got[k], sg[k]);
+                    if (!d.empty())
+                        w.fail("isolation:delivered-packet-differs-from-solo-decoder:" + d, where + ": shared " + obs::show(got[k]) + " solo " + obs::show(sg[k]));
+                }
+        }
+        w.add(mc::C_TRANS, 1);
+        w.add(mc::C_STATES, 1);
+    };
+    int pos = 0;
+    for (int i = 0; i < n; ++i)
+        feed(i, false, pos++);
+    if (order == 0)
+        for (int i = 0; i < n; ++i)
+            feed(i, true, pos++);
+    else if (order == 1)
+        for (int i = n - 1; i >= 0; --i)
+            feed(i, true, pos++);
+    else
+    {
+        for (int i = 0; i < n; i += 2)
+            feed(i, true, pos++);
+        for (int i = 1; i < n; i += 2)
+            feed(i, true, pos++);
+    }
+    if (oracle == 'P' && !s.d.verifPending().empty())
+        w.fail("pending-state:kept-for-endpoint-without-open-message", fmt("after all %d messages were completed the decoder still holds %zu pending entries", n, s.d.verifPending().size()));
+    w.add(mc::C_TRACES, 1);
+    w.outcome(mc::mix(stateHash(s, 77), (uint64_t) n * 4 + order));
+}
+
+static std::vector<int> fanSizes(bool thorough)
+{
+    std::vector<int> v = {5, 7, 8, 9, 15, 16, 17, 31, 32, 33, 63, 64, 65, 100, 127, 128, 129, 255, 256, 257, 1000};
+    if (thorough)
+        for (int x : {511, 512, 513, 1023, 1024, 1025, 4095, 4096, 4097, 10000})
+            v.push_back(x);
+    return v;
+}
+
 // ---------------------------------------------------------------------------------------------
 // C06: fault sequences
 struct Sent
@@ -926,8 +1018,10 @@ static BaseHist baseHistory(int which)
     {
         // base 5: the second endpoint is D, which differs from A in the HIGH byte of the device id only, and its frames are zero-padded
         // to 64 bytes (the padding parses as a message of payload type 0, i.e. every padded frame ends in an invalid message)
+        // base 2: endpoints C = (0,0) (the ids of a default encoder) and B
         std::vector<Bytes> fa, fb;
-        encodeFor(0, 0, 40, 10, fa, h.sent);
+        const int epA = which == 2 ? 2 : 0;
+        encodeFor(epA, 0, 40, 10, fa, h.sent);
         if (which == 2)
             encodeFor(1, 0, 40, 60, fb, h.sent);
         else
@@ -936,7 +1030,7 @@ static BaseHist baseHistory(int which)
         size_t i = 0, j = 0;
         while (i < fa.size() || j < fb.size())
         {
-            if (i < fa.size()) { h.frames.push_back(fa[i++]); h.frameEp.push_back(0); }
+            if (i < fa.size()) { h.frames.push_back(fa[i++]); h.frameEp.push_back(epA); }
             if (j < fb.size()) { h.frames.push_back(fb[j++]); h.frameEp.push_back(epB); }
         }
     }
@@ -1157,8 +1251,8 @@ int main(int argc, char** argv)
     const std::string prop = opt.prop;
     const bool thorough = opt.tier == "thorough";
     run.assumptions = {
-        "segment payload sizes are drawn from {0,1,5,6} plus two variants that reassemble to 65535 and 65519/65520 bytes, trailing bytes from {0,3,20}, start counters from {0,1,254,32766,32767,65534,65535} (byte carry, sign boundary and wrap of the 16-bit counter)",
-        "four endpoints (1,1) (1,0x81) (2,1) (0x0101,1): pairs differ only in the stream id, only in the low byte and only in the high byte of the device id",
+        "segment payload sizes are drawn from {0,1,5,6} plus two variants that reassemble to 65535 and 65519/65520 bytes, trailing bytes from {0,3,20,300}, start counters from {0,1,254,32766,32767,65534,65535} (byte carry, sign boundary and wrap of the 16-bit counter)",
+        "four endpoints (1,1) (1,0x81) (0,0) (0x0101,1): pairs differ only in the stream id and only in the high byte of the device id; (0,0) are the ids of default-constructed objects",
         "VERIF_SEED is ignored: nothing is sampled",
     };
 
@@ -1169,12 +1263,25 @@ int main(int argc, char** argv)
             auto kv = mc::kv_parse(cs);
             if (kv["k"] == "merge")
                 replayMerge(w, cs, oracle);
+            else if (kv["k"] == "fan")
+                fanOut(w, oracle, atoi(kv["n"].c_str()), atoi(kv["o"].c_str()));
             else
                 replaySyms(w, cs, oracle);
         };
         if (!opt.case_file.empty())
             return run.run_single(readCase(opt.case_file));
 
+        {
+            auto sizes = fanSizes(thorough);
+            run.round(fmt("fan-out: N endpoints with a message in progress at once, N from %zu sizes up to %d (around every power of two) x 3 completion orders", sizes.size(), sizes.back()),
+                      sizes.size() * 3, [&, sizes](W& w, uint64_t o) {
+                          int n = sizes[o / 3], order = (int) (o % 3);
+                          auto desc = [&] { return fmt("k=fan;n=%d;o=%d", n, order); };
+                          if (!w.begin_case(desc))
+                              return;
+                          fanOut(w, oracle, n, order);
+                      });
+        }
         if (prop == "C05" || prop == "C18")
         {
             auto tasks = mergeTasks(thorough);
@@ -1319,7 +1426,7 @@ int main(int argc, char** argv)
         }
         run.extra.push_back({"max_faults", mc::Json::num((uint64_t) maxFaults)});
         run.rule = "6 base histories (real encoder output for [small,small,3-seg,small,2-seg,4-seg,small] at (0,40) and (64,100), the same for two "
-                   "endpoints interleaved round-robin, a hand-built stream crossing the 65535->0 wrap, the same crossing 32767->32768, two endpoints differing in the high "
+                   "endpoints - one of them (0,0), the ids of a default encoder - interleaved round-robin, a hand-built stream crossing the 65535->0 wrap, the same crossing 32767->32768, two endpoints differing in the high "
                    "byte of the device id only of which one sends zero-padded frames) x ALL sequences of <= k faults from "
                    "{drop, duplicate-after, duplicate-two-later, swap, corrupt-version, corrupt-type} at every position; distinct = distinct delivery "
                    "patterns (which sent packet is delivered at which position)";
